@@ -1,7 +1,7 @@
 From Coq Require Import ZArith Lia.
 From RsdnsModel Require Import Base GenHeader Cursor Names Labels Header Tracker RData Reader RecordSet.
 From RsdnsModel.Spec Require Import LinearPass.
-From RsdnsModel.Proofs Require Import Gates ReaderRefine FromMsgRefine.
+From RsdnsModel.Proofs Require Import Gates ReaderRefine FromMsgRefine MessageRT EndToEnd.
 From RsdnsModel.Properties Require Import C07.
 Open Scope N_scope.
 Check (C07_gates_sound : forall msg ty rs,
@@ -25,4 +25,12 @@ Check (C07_rcode_gate : forall msg nq an ns ar qs rs e1 e2,
   forall ty q, nq = 1 -> getN qs 0 = Some q -> flag_qr (h_flags h) = true -> flag_tc (h_flags h) = false ->
   (the_rcode an ns ar rs h <> 0 -> from_msg msg ty = Err (BadResponseCode (the_rcode an ns ar rs h))) /\
   (forall s, from_msg msg ty = Ok s -> the_rcode an ns ar rs h = 0)).
-Print Assumptions C07_gates_sound. Print Assumptions C07_gate_errors. Print Assumptions C07_extended_rcode. Print Assumptions C07_rcode_gate.
+Check (C07_rcode_gate_end_to_end : forall msg q rs an ns ar e1 e2 h ty,
+  lenN msg <= 65535 -> 12 <= lenN msg -> questions_stand msg 12 [q] e1 -> records_stand msg e1 rs e2 ->
+  lenN rs = an + ns + ar -> an <= 65535 -> ns <= 65535 -> ar <= 65535 ->
+  read_header msg (c_new msg) = (c_set_pos (c_new msg) 12, Ok h) ->
+  h_qd h = 1 /\ h_an h = an /\ h_ns h = ns /\ h_ar h = ar ->
+  flag_qr (h_flags h) = true -> flag_tc (h_flags h) = false ->
+  sem_rcode rs an h <> 0 -> from_msg msg ty = Err (BadResponseCode (sem_rcode rs an h))).
+Check (C07_rcode_gate_example : from_msg example_opt_msg T_A = Err (BadResponseCode 16)).
+Print Assumptions C07_gates_sound. Print Assumptions C07_gate_errors. Print Assumptions C07_extended_rcode. Print Assumptions C07_rcode_gate. Print Assumptions C07_rcode_gate_end_to_end. Print Assumptions C07_rcode_gate_example.
